@@ -8,7 +8,7 @@ from harness import comp_engine, comp_strategy
 META = comp_engine.meta("C12")
 META["rule"] += "; strategy part: exact-domain grid (dyadic rates/jitter draws) compared for equality, boundary grid checked against the bounds"
 META["trusted_base"] = META["trusted_base"] + ["T6 exact rationals stand for floats in Strategy.lean; compared on the exact domain, bounds on the boundary grid",
-                                               "the error filters of create_retry_strategy are compared with an independent re-statement, not modelled"]
+                                               "error filters of create_retry_strategy: plain strings are modelled (Strategy.retryable: substring test), a compiled pattern only by the outcome of its search (the re engine is not modelled); both compared with the real strategy on a grid of messages and filters incl. regex metacharacters"]
 
 
 def run(ctx):
